@@ -463,6 +463,21 @@ def stepOp (w : TWorld) (toks : List String) : Option (TWorld × String) :=
         let rs ← tw.g.renet.broadcast ch m
         let tw := { tw with g := { tw.g with renet := rs } }
         pure (tw, if ids.isEmpty then "ok -" else "ok " ++ ",".intercalate (ids.map toString))
+  -- a datagram of the slot's down queue reaches the client's socket from an address that is NOT its server's
+  -- (the relay's back socket): `Discarded packet from unknown server`
+  | ["t-stray", k, i] => some <|
+    match pU64 k, pU64 i with
+    | some k, some i => withW w fun tw =>
+      match tw.slots[k]? with
+      | none => bad tw
+      | some s =>
+        match s.down[i]? with
+        | none => pure (tw, "err:noitem")
+        | some data =>
+          match s.client with
+          | none => pure (tw, "err:noclient")
+          | some c => pure (setSlot tw k { s with client := some { c with inbox := c.inbox.push (s.back, data) } }, "ok")
+    | _, _ => (w, "bad-op")
   | [op, who, ch] =>
     if op ≠ "t-recv" ∧ op ≠ "t-recvall" then none else some <|
     let all := op = "t-recvall"
@@ -509,6 +524,29 @@ def stepOp (w : TWorld) (toks : List String) : Option (TWorld × String) :=
   | ["t-sdiscall"] => some <| withW w fun tw => do
       let (g, out) ← serverDisconnectAll aead tw.g
       pure (routeDown (collectEvents { tw with g }) out, "ok")
+  -- NetcodeServerTransport::set_max_clients
+  | ["t-setmax", n] => some <|
+    match pU64 n with
+    | some n => withW w fun tw => pure ({ tw with g := { tw.g with netcode := tw.g.netcode.setMaxClients n } }, "ok")
+    | none => (w, "bad-op")
+  -- the accessors of both transports (tp.rs `t-acc`)
+  | ["t-acc"] => some <| withW w fun tw => do
+      let ns := tw.g.netcode
+      let pubOk := ns.addresses = tw.slots.toList.map (·.front)
+      let mut o := s!"acc max={ns.maxClients} pub={ns.addresses.length}:{if pubOk then 1 else 0}"
+      for id in sortNat tw.ids do
+        let idle ← ns.timeSinceLastReceivedPacket id
+        o := o ++ s!" s{id}={match idle with | some t => toString t | none => "-"}"
+      for k in List.range tw.slots.size do
+        match tw.slots[k]? with
+        | some s =>
+          match s.client with
+          | some c =>
+            let idle ← c.g.netcode.timeSinceLastReceivedPacket
+            o := o ++ s!" c{k}={c.g.netcode.clientId}:1:{idle}"
+          | none => pure ()
+        | none => pure ()
+      pure (tw, o)
   | op :: _ => if op.startsWith "t-" then some (w, "bad-op") else none
   | [] => none
 
